@@ -67,7 +67,7 @@ var ioTokenSpecs = map[string]TokSpec{
 	"dlg1m":   {Kind: "dlg", Alg: "ed25519", Key: 1, Opts: map[string]string{"nonce": "12", "size:meta-bytes": "1048576"}},
 	"inv1m":   {Kind: "inv", Alg: "ed25519", Opts: map[string]string{"nonce": "12", "iat": "none", "size:arg-str": "1100000"}},
 	"dlg2":    {Kind: "dlg", Alg: "p256", Opts: map[string]string{"nonce": "12", "sub": "other"}},
-	"inv2":    {Kind: "inv", Alg: "secp256k1", Opts: map[string]string{"nonce": "12", "iat": "none", "prf": "3"}},
+	"inv2":    {Kind: "inv", Alg: "secp256k1", Opts: map[string]string{"nonce": "12", "iat": "none", "prf": "odd"}},
 }
 
 type sealedTok struct {
@@ -343,6 +343,7 @@ type c18ReadCase struct {
 	At          int    `json:"at,omitempty"`     // positional fault offset (-1 = all)
 	Chunk       int    `json:"chunk,omitempty"`
 	EOFWithData bool   `json:"eof_with_data,omitempty"`
+	Stall       bool   `json:"stall,omitempty"` // env: the answer (0, nil) is in the menu
 }
 
 func (c *c18ReadCase) Weight() int { return len(c.Prefix) }
@@ -366,7 +367,7 @@ func c18ReadSub() *engine.Sub {
 	}
 	return &engine.Sub{
 		Name: "readers",
-		Rule: "every streaming decoder on every matching artefact (sealed and DAG-JSON tokens, containers; plus tokens and containers of 1 MiB and more, for which only the fault-free chunkings are compared): (1) chunk sizes {1,2,3,7,whole} x EOF {separate, with data}: result equals the buffered API's; (2) positional faults: an injected error after k delivered bytes for every k in [0,len] (returned alone, and returned together with the bytes up to k) and an early EOF for every k in [0,len) must yield an error (a CAR cut exactly at a block boundary yields exactly the blocks before it); (3) E3: deviation-bounded DFS over per-Read answers {all, 1 byte, half, last-bytes-with-EOF, early EOF, error, bytes-together-with-error}: fault-free schedules agree with the buffered API, faulty ones return an error; non-trivial = executions with at least one deviation or fault",
+		Rule: "every streaming decoder on every matching artefact (sealed and DAG-JSON tokens, containers; plus tokens and containers of 1 MiB and more, for which only the fault-free chunkings are compared): (1) chunk sizes {1,2,3,7,whole} x EOF {separate, with data}: result equals the buffered API's; (2) positional faults: an injected error after k delivered bytes for every k in [0,len] (returned alone, and returned together with the bytes up to k) and an early EOF for every k in [0,len) must yield an error (a CAR cut exactly at a block boundary yields exactly the blocks before it); one Read answering (0, nil) - nothing happened, call again - after k delivered bytes for every k, with chunks {whole, 1, 7}, must not change the result; (3) E3: deviation-bounded DFS over per-Read answers {all, 1 byte, half, last-bytes-with-EOF, early EOF, error, bytes-together-with-error, (0, nil) (at most twice, never twice in a row; explored in a second pass, with one deviation less on inputs of more than 400 bytes)}: fault-free schedules agree with the buffered API, faulty ones return an error; non-trivial = executions with at least one deviation or fault",
 		Bound: func(t string) string {
 			return fmt.Sprintf("E3 deviation bound %d (per artefact x API), all offsets for positional faults, 10 chunkings", tierN(t, 2, 3))
 		},
@@ -402,6 +403,9 @@ func c18ReadSub() *engine.Sub {
 						return
 					}
 					if !emit(&c18ReadCase{Art: a.Name, API: api.Name, Mode: "pos-error-with-data", At: -1}) {
+						return
+					}
+					if !emit(&c18ReadCase{Art: a.Name, API: api.Name, Mode: "pos-stall", At: -1}) {
 						return
 					}
 					if a.Huge {
@@ -448,6 +452,34 @@ func c18ReadSub() *engine.Sub {
 					ctx.Failf(cs, "stream-differs-from-buffered/"+tag, "%s on %s with chunk=%d eofWithData=%v differs from the buffered result", api.Name, a.Name, cs.Chunk, cs.EOFWithData)
 				} else {
 					ctx.Outcome("stream-equals-buffered")
+				}
+			case "pos-stall":
+				// a Read that answers (0, nil) once, after k delivered bytes: the stream is complete and intact
+				lo, hi := 0, len(a.Data)
+				if cs.At >= 0 {
+					lo, hi = cs.At, cs.At
+				}
+				for k := lo; k <= hi; k++ {
+					for _, ch := range []int{0, 1, 7} {
+						if a.Huge && (ch != 0 || (k%97 != 0 && k > 600 && k < len(a.Data)-600 && !c18NearBoundary(a, k))) {
+							continue
+						}
+						got, err := api.Stream(&engine.PosReader{Data: a.Data, Chunk: ch, FailAt: k, Mode: "stall"})
+						ctx.Eval(1)
+						ctx.Trans(1)
+						ctx.Nontrivial(1)
+						rc := &c18ReadCase{Art: cs.Art, API: cs.API, Mode: cs.Mode, At: k, ArtHex: hex.EncodeToString(a.Data)}
+						switch {
+						case err != nil:
+							ctx.Outcome("stall-breaks-stream")
+							ctx.Failf(rc, "empty-read-breaks-stream/"+tag, "%s fails on %s when one Read, after %d of %d bytes, returns (0, nil) (chunk=%d): %v", api.Name, a.Name, k, len(a.Data), ch, err)
+						case got != want:
+							ctx.Outcome("stall-changes-result")
+							ctx.Failf(rc, "empty-read-changes-result/"+tag, "%s on %s returns a different result when one Read, after %d of %d bytes, returns (0, nil) (chunk=%d)", api.Name, a.Name, k, len(a.Data), ch)
+						default:
+							ctx.Outcome("stream-equals-buffered")
+						}
+					}
 				}
 			case "pos-error", "pos-eof", "pos-error-with-data":
 				lo, hi := 0, len(a.Data)
@@ -505,8 +537,10 @@ func c18ReadSub() *engine.Sub {
 				var last *engine.ChoiceReader
 				var got string
 				var gerr error
+				stall := cs.Stall
 				run := func(env *engine.Env) {
 					last = engine.NewChoiceReader(a.Data, env)
+					last.AllowStall = stall
 					got, gerr = api.Stream(last)
 				}
 				if cs.Prefix != nil {
@@ -515,14 +549,23 @@ func c18ReadSub() *engine.Sub {
 					c18Judge(ctx, cs, a, api, env, last, got, gerr, want)
 					return
 				}
-				n, capped, err := engine.ExploreEnv(bound, maxExec, run, func(env *engine.Env) {
-					c18Judge(ctx, cs, a, api, env, last, got, gerr, want)
-				})
-				if err != nil {
-					panic(err)
-				}
-				if capped {
-					ctx.Outcome(fmt.Sprintf("env-capped-after-%d-executions", n))
+				// first without, then with the answer (0, nil) in the menu; with it, inputs of more than 400 bytes are
+				// explored with one deviation less (the positional sweep covers a single empty read at every offset)
+				for _, st := range []bool{false, true} {
+					stall = st
+					b := bound
+					if st && len(a.Data) > 400 {
+						b--
+					}
+					n, capped, err := engine.ExploreEnv(b, maxExec, run, func(env *engine.Env) {
+						c18Judge(ctx, &c18ReadCase{Art: cs.Art, API: cs.API, Mode: cs.Mode, Stall: st}, a, api, env, last, got, gerr, want)
+					})
+					if err != nil {
+						panic(err)
+					}
+					if capped {
+						ctx.Outcome(fmt.Sprintf("env-capped-after-%d-executions", n))
+					}
 				}
 			}
 		},
@@ -541,10 +584,13 @@ func c18Judge(ctx *engine.Ctx, cs *c18ReadCase, a ioArtefact, api readerAPI, env
 	if dev > 0 {
 		ctx.Nontrivial(1)
 	}
-	rc := &c18ReadCase{Art: cs.Art, API: cs.API, Mode: "env", Prefix: append([]int{}, env.Taken...), ArtHex: hex.EncodeToString(a.Data)}
+	rc := &c18ReadCase{Art: cs.Art, API: cs.API, Mode: "env", Stall: cs.Stall, Prefix: append([]int{}, env.Taken...), ArtHex: hex.EncodeToString(a.Data)}
 	faulty := r.InjectedError || r.EarlyEOFAt >= 0
 	tag := api.Name
 	switch {
+	case !faulty && gerr != nil && r.Stalls > 0:
+		ctx.Outcome("stall-breaks-stream")
+		ctx.Failf(rc, "empty-read-breaks-stream/"+tag, "%s fails on a fault-free schedule %v of %s in which %d Read calls answer (0, nil): %v", api.Name, env.Taken, a.Name, r.Stalls, gerr)
 	case !faulty && gerr != nil:
 		ctx.Outcome("stream-error")
 		ctx.Failf(rc, "chunking-breaks-stream/"+tag, "%s fails on a fault-free schedule %v of %s: %v", api.Name, env.Taken, a.Name, gerr)
